@@ -15,7 +15,6 @@ The observed influence set is compared with the one the layout predicts:
 Quick tier: a stratified random sample of byte positions; thorough: every byte position of the four files of one level-1.1 and
 one level-1.5 product, in parallel worker processes.
 """
-import concurrent.futures
 import json
 import os
 import random
@@ -168,6 +167,66 @@ def _probe(task):
     return last or ("raise", "no admissible replacement")
 
 
+def _run_tasks(cfg, task_list, workers, per_task_budget=3.0):
+    """probe every task; with several workers: independent SUBPROCESSES (one shard of the task list each, results through
+    files) under a hard time limit — no process pool, no fork from a multi-threaded parent, nothing that can hang the check"""
+    if workers <= 1 or len(task_list) < 2 * workers:
+        _worker_init(cfg)
+        try:
+            return [_probe(t) for t in task_list]
+        finally:
+            _W["fs"].rm(_W["root"], recursive=True)
+            _W.clear()
+    import subprocess
+    import sys
+    import tempfile
+    import common
+    d = tempfile.mkdtemp(prefix="influence-", dir=common.SCRATCH)
+    with open(os.path.join(d, "tasks.json"), "w") as f:
+        json.dump({"cfg": cfg, "tasks": [[fn, st, [o.hex() for o in opts]] for fn, st, opts in task_list]}, f)
+    procs = []
+    for i in range(workers):
+        procs.append(subprocess.Popen([sys.executable, os.path.abspath(__file__), "--shard", d, str(i), str(workers)],
+                                      stdout=subprocess.DEVNULL, stderr=subprocess.PIPE))
+    deadline = 120 + per_task_budget * (len(task_list) / workers)
+    import time
+    t0 = time.time()
+    results = [("skip", "shard did not finish in time")] * len(task_list)
+    for i, p_ in enumerate(procs):
+        try:
+            _, err = p_.communicate(timeout=max(5.0, deadline - (time.time() - t0)))
+        except subprocess.TimeoutExpired:
+            p_.kill()
+            p_.communicate()
+            continue
+        out = os.path.join(d, f"out{i}.json")
+        if p_.returncode == 0 and os.path.exists(out):
+            with open(out) as f:
+                for k, r in json.load(f):
+                    results[k] = tuple(r)
+        else:
+            msg = (err or b"").decode("utf-8", "replace")[-300:]
+            for k in range(i, len(task_list), workers):
+                results[k] = ("skip", f"shard {i} failed (rc={p_.returncode}): {msg}")
+    import shutil
+    shutil.rmtree(d, ignore_errors=True)
+    return results
+
+
+def _shard_main(d, i, k):
+    with open(os.path.join(d, "tasks.json")) as f:
+        spec = json.load(f)
+    cfg = spec["cfg"]
+    cfg["images"] = [tuple(x) for x in cfg["images"]]
+    _worker_init(cfg)
+    out = []
+    for idx in range(i, len(spec["tasks"]), k):
+        fn, st, opts = spec["tasks"][idx]
+        out.append([idx, list(_probe((fn, st, [bytes.fromhex(o) for o in opts])))])
+    with open(os.path.join(d, f"out{i}.json"), "w") as f:
+        json.dump(out, f)
+
+
 def _tasks(rng, prod, per_file, positions):
     """positions: list of (file, byte index) -> list of (meta, task)"""
     out = []
@@ -228,16 +287,7 @@ def sweep(cfg, rng, sample=None, workers=1):
                  "key": common.failure_site(e)}], 1, {}
     finally:
         clean()
-    if workers > 1:
-        with concurrent.futures.ProcessPoolExecutor(workers, initializer=_worker_init, initargs=(cfg,)) as ex:
-            results = list(ex.map(_probe, [t for _, t in tasks], chunksize=16))
-    else:
-        _worker_init(cfg)
-        try:
-            results = [_probe(t) for _, t in tasks]
-        finally:
-            _W["fs"].rm(_W["root"], recursive=True)
-            _W.clear()
+    results = _run_tasks(cfg, [t for _, t in tasks], workers)
     viol = []
     dist = {"padding": 0, "live": 0, "structural": 0, "live_rejected": 0, "live_changed_something": 0, "padding_anonymous": 0}
     for (meta, _), res in zip(tasks, results):
@@ -245,6 +295,10 @@ def sweep(cfg, rng, sample=None, workers=1):
         if meta["field"] is None:
             dist["padding_anonymous"] += 1
         if meta["class"] == "structural":
+            continue
+        if res[0] == "skip":
+            # not evaluated (a worker shard ran out of time or died): no statement either way
+            dist["not_evaluated"] = dist.get("not_evaluated", 0) + 1
             continue
         if res[0] == "raise":
             if meta["class"] == "padding":
@@ -284,6 +338,9 @@ def check(seed, tier):
 
 if __name__ == "__main__":
     import sys
+    if len(sys.argv) > 1 and sys.argv[1] == "--shard":
+        _shard_main(sys.argv[2], int(sys.argv[3]), int(sys.argv[4]))
+        sys.exit(0)
     r = check(int(sys.argv[1]) if len(sys.argv) > 1 else 0, sys.argv[2] if len(sys.argv) > 2 else "quick")
     print(r["evaluations"], r["samples"], "violations", len(r["violations"]))
     seen = set()
